@@ -77,14 +77,17 @@ class RequestContextHolder:
     @classmethod
     def update_request_start(cls, new_request_start):
         meta = cls.request_context.get()
-        # this can happen if multiple requests are sent on the wire for one logical request (e.g. scrolls)
-        if "request_start" not in meta:
+        # this can happen if multiple requests are sent on the wire for one logical request (e.g. scrolls) or if
+        # sub-requests run concurrently: keep the earliest start (a sub-request context without requests reports None)
+        if new_request_start is not None and ("request_start" not in meta or new_request_start < meta["request_start"]):
             meta["request_start"] = new_request_start
 
     @classmethod
     def update_request_end(cls, new_request_end):
         meta = cls.request_context.get()
-        meta["request_end"] = new_request_end
+        # keep the latest end: concurrent sub-request contexts may be closed in any order
+        if new_request_end is not None and ("request_end" not in meta or new_request_end > meta["request_end"]):
+            meta["request_end"] = new_request_end
 
     @classmethod
     def on_request_start(cls):
